@@ -306,6 +306,28 @@ def escape_merge_sources():
     return sorted(set(out))
 
 
+def plain_literal_attacks():
+    """ordinary (non f-string) str and bytes constants, short and with many line breaks / tabs / quotes (what a "use a long literal
+    here" optimisation would key on), whose text closes every kind of quote and continues with an expression"""
+    call = '__import__("os").system("true")'
+    payloads = ['"""+' + call + '+"""', "'''+" + call.replace('"', "'") + "+'''", '"+' + call + '+"', "'+" + call.replace('"', "'") + "+'",
+                '\\"""+' + call + '+"""', '\\', '"""', "'''", 'b"""+' + call + '+b"""']
+    fillers = ['', '\n' * 5, '\n' * 12, '\t' * 6 + '\n' * 6, '\r\n' * 6, '"' * 7, "'" * 7]
+    out = []
+    for pay in payloads:
+        for fill in fillers:
+            for prefix in ('', 'b'):
+                for text in (fill + pay, pay + fill, fill + pay + fill):
+                    value = text.encode('latin-1') if prefix == 'b' else text
+                    src = 'x = %r\ny = [%r, 1]\n' % (value, value)
+                    try:
+                        compile(src, '<c12>', 'exec', dont_inherit=True)
+                        out.append(src)
+                    except (SyntaxError, ValueError):
+                        pass
+    return sorted(set(out))
+
+
 def nested_string_attacks():
     """string and bytes constants *inside a replacement field* whose value tries to close whatever literal the printer may
     choose (plain, raw, bytes; either quote; triple quotes) and continue as code: backslash runs before a quote, doubled and
@@ -469,7 +491,9 @@ def run(ctx):
     strlex_validation(ctx, ctx.scale(500, 8000))
     attacks = nested_string_attacks()
     ctx.exhaustive['nested_string_attacks'] = len(attacks)
-    srcs = list(ADVERSARIAL_SOURCES) + attacks + fstring_sources(ctx, ctx.scale(150, 3000)) + arithmetic_sources(ctx, ctx.scale(150, 3000))
+    plain = plain_literal_attacks()
+    ctx.exhaustive['plain_literal_attacks'] = len(plain)
+    srcs = list(ADVERSARIAL_SOURCES) + attacks + plain + fstring_sources(ctx, ctx.scale(150, 3000)) + arithmetic_sources(ctx, ctx.scale(150, 3000))
     audit_stage(ctx, srcs)
     for k in ctx.known:
         if k.get('replay_source'):
